@@ -92,6 +92,14 @@ func runC15(p *Prog, r *Report) {
 	c15Supplier(p, r)
 	c15WriterTruncates(p, r)
 	c15ParseAsGiven(p, r, "D3-reference")
+	r.Rule("D6-writers-history-free", "what a writer or converter produces depends on the document it is given only: no process-wide mutable state")
+	var wr []*ssa.Function
+	for _, fn := range p.FuncsIn("binary/cdx", "binary/spdx", "converter") {
+		if fn.Parent() == nil {
+			wr = append(wr, fn)
+		}
+	}
+	noSharedMutableState(p, r, "D6-writers-history-free", "a pooled buffer that comes back dirty after a failed write prepends the previous document to the next one", wr, "binary/cdx", "binary/spdx", "converter")
 }
 
 // c15WriterTruncates: the SBOM writers replace an existing output file: os.Create, or os.OpenFile
